@@ -20,7 +20,7 @@ RULE = ('A formula whose bounds are counted in sampling periods, a sampling peri
         'online, before and after pastify(), and equal R-dt computed with bound/period; a spelling may also write the same requirement text '
         'twice (two assertions) or call parse() twice before pastify(). Lanes reconfigure / reconfigure_unit: one object used under one sampling period / default unit, '
         're-configured (set_sampling_period, spec.unit, parse, pastify, reset) and used again equals a fresh object under the second configuration. Lane reject: one bound is moved off the sampling '
-        'grid: RTAMTException no later than the first evaluate/update, never a value. Lane dense: grid signals; bounds spelled with '
+        'grid (by a fraction of the period or by a fraction of a nanosecond; periods down to 1 ns): RTAMTException no later than the first evaluate/update, never a value. Lane dense: grid signals; bounds spelled with '
         'explicit units, and the whole case restated in another default unit (time stamps scaled): identical step functions. '
         'Non-trivial = the two spellings differ in >= 1 unit token and the result is not constant; distinct = distinct (text1, text2, '
         'configuration, data) digests.')
@@ -33,7 +33,7 @@ ASSUMPTIONS = [
 
 U = {'s': 10 ** 9, 'ms': 10 ** 6, 'us': 10 ** 3, 'ns': 1}
 UNITS = ('s', 'ms', 'us', 'ns')
-PERIODS = [(1, 's'), (2, 's'), (500, 'ms'), (250, 'ms'), (100, 'ms'), (10, 'ms'), (1, 'ms'), (500, 'us'), (20, 'us'), (100, 'ns'), (5, 's')]
+PERIODS = [(1, 's'), (2, 's'), (500, 'ms'), (250, 'ms'), (100, 'ms'), (10, 'ms'), (1, 'ms'), (500, 'us'), (20, 'us'), (100, 'ns'), (5, 's'), (2500, 'us'), (1500, 'ms')]
 
 PROF_OFF = Profile(un_temp=F.UN_PAST + ('eventually', 'always'), tbin=('since', 'until', 'unless'), max_depth=3, max_bound=5)
 PROF_PAST = Profile(un_temp=F.UN_PAST, bin_temp=F.BIN_PAST, tun=F.TUN_PAST, tbin=F.TBIN_PAST, max_depth=3, max_bound=5)
@@ -153,9 +153,10 @@ def cases(draw, tier, mode, wide=False):
     for _ in range(2):
         du = draw(st.sampled_from(UNITS))
         # the period written in another unit
-        alts = [(t, u) for (t, u) in spellings(1, pv * U[pu], None) if '.' not in t]
+        # ... also as a non-integer number of a larger unit when that number is an exact float (0.5 s, 2.5 ms)
+        alts = [(t, u) for (t, u) in spellings(1, pv * U[pu], None) if '.' not in t or Fraction(float(t)) * U[u] == pv * U[pu]]
         pt, pun = draw(st.sampled_from(alts))
-        cfgs.append({'unit': du, 'period': [int(pt), pun], 'choices': draw(st.lists(st.integers(0, 11), min_size=12, max_size=12)),
+        cfgs.append({'unit': du, 'period': [float(pt) if '.' in pt else int(pt), pun], 'choices': draw(st.lists(st.integers(0, 11), min_size=12, max_size=12)),
                      'uniform': draw(st.sampled_from([None, None, 's', 'ms', 'us', 'ns'])),
                      # None: one requirement; dup: the same requirement text written twice (two assertions); reparse: parse() twice
                      'layout': draw(st.sampled_from([None, None, None, 'dup', 'reparse']))})
@@ -247,10 +248,13 @@ def reject_cases(draw, tier):
     f, vs = draw(F.formulas(prof))
     f = draw(ensure_timed(f, mode))
     # only periods that can be halved / shifted inside the unit table
-    pv, pu = draw(st.sampled_from([(2, 's'), (500, 'ms'), (250, 'ms'), (10, 'ms'), (20, 'us'), (100, 'ns'), (5, 's'), (1, 's')]))
+    pv, pu = draw(st.sampled_from([(2, 's'), (500, 'ms'), (250, 'ms'), (10, 'ms'), (20, 'us'), (100, 'ns'), (5, 's'), (1, 's'), (1, 'ms'), (1, 'us'), (1, 'ns'), (3, 'ns')]))
     du = draw(st.sampled_from(UNITS))
     which = draw(st.integers(0, 50))
     off = draw(st.sampled_from([Fraction(1, 2), Fraction(1, 4), Fraction(3, 2), Fraction(1, 10)]))
+    if draw(st.integers(0, 2)) == 0:
+        # an excess far below the period: a fraction of a nanosecond (the smallest unit of the language)
+        off = draw(st.sampled_from([Fraction(1, 2), Fraction(1, 10), Fraction(1, 2000), Fraction(1, 4)])) / (pv * U[pu])
     n = draw(st.integers(1, 6))
     tr = draw(F.traces(vs, n=n))
     return {'formula': f, 'vars': vs, 'trace': tr, 'period': [pv, pu], 'unit': du, 'which': which, 'off': [off.numerator, off.denominator], 'mode': mode}
